@@ -268,6 +268,27 @@ impl<'a> Rules<'a> {
                 ((*it.receiver).clone(), Some(b))
             }
             syn::Expr::MethodCall(it) if it.method == "iter" && it.args.is_empty() => ((*it.receiver).clone(), None),
+            // `A.into_iter().map(|x| F).collect()` over a Vec: the elements are moved out in order (trusted vx_vec_take)
+            syn::Expr::MethodCall(it) if it.method == "into_iter" && it.args.is_empty() && !is_r13_map(self.ctx, &it.receiver) => {
+                let a = (*it.receiver).clone();
+                let k = self.ctx.fresh();
+                let nn = syn::Ident::new(&format!("vx_n{}", k), proc_macro2::Span::call_site());
+                let ii = syn::Ident::new(&format!("vx_i{}", k), proc_macro2::Span::call_site());
+                let out = syn::Ident::new(&format!("vx_out{}", k), proc_macro2::Span::call_site());
+                let src = syn::Ident::new(&format!("vx_src{}", k), proc_macro2::Span::call_site());
+                let body = &cl.body;
+                let pat = match &cl.inputs[0] { syn::Pat::Type(pt) => (*pt.pat).clone(), p => p.clone() };
+                return Some(syn::parse_quote!({
+                    let mut #out = Vec::new();
+                    let #src = #a;
+                    let #nn = #src.len();
+                    for #ii in 0..#nn {
+                        let #pat = vx_vec_take(&#src, #ii);
+                        #out.push(#body);
+                    }
+                    #out
+                }));
+            }
             _ => return None,
         };
         let k = self.ctx.fresh();
@@ -714,6 +735,59 @@ impl<'a> VisitMut for Rules<'a> {
                     i += 1;
                 }
             }
+        }
+        if self.ctx.on("R63") {
+            // R63: `let X: IndexMap<String, T> = A.iter().enumerate().map(|(i, p)| (K, V)).collect();` -> insertion loop into a new map, in order
+            // (FromIterator for IndexMap: `insert` per item, a repeated key keeps its first position and takes the last value)
+            let mut out: Vec<syn::Stmt> = Vec::with_capacity(b.stmts.len());
+            for st in b.stmts.drain(..) {
+                let mut rep: Option<Vec<syn::Stmt>> = None;
+                if let syn::Stmt::Local(l) = &st {
+                    if let (syn::Pat::Type(pt), Some(init)) = (&l.pat, &l.init) {
+                        let tytxt = norm(&pt.ty.to_token_stream().to_string());
+                        if tytxt.starts_with("IndexMap<String,") && init.diverge.is_none() {
+                            if let syn::Expr::MethodCall(col) = &*init.expr {
+                                if col.method == "collect" && col.args.is_empty() {
+                                    if let syn::Expr::MethodCall(mp) = &*col.receiver {
+                                        if mp.method == "map" && mp.args.len() == 1 {
+                                            if let (syn::Expr::Closure(cl), syn::Expr::MethodCall(en)) = (&mp.args[0], &*mp.receiver) {
+                                                if en.method == "enumerate" && en.args.is_empty() && cl.inputs.len() == 1 {
+                                                    if let (syn::Expr::MethodCall(it), syn::Pat::Tuple(tp), syn::Expr::Tuple(kv)) = (&*en.receiver, match &cl.inputs[0] { syn::Pat::Type(p) => &*p.pat, p => p }, &*cl.body) {
+                                                        if it.method == "iter" && it.args.is_empty() && tp.elems.len() == 2 && kv.elems.len() == 2 {
+                                                            let a = &it.receiver;
+                                                            let (ip, pp) = (&tp.elems[0], &tp.elems[1]);
+                                                            let (kk, vv) = (&kv.elems[0], &kv.elems[1]);
+                                                            let xpat = &pt.pat;
+                                                            let xty = &pt.ty;
+                                                            let k = self.ctx.fresh();
+                                                            let nn = syn::Ident::new(&format!("vx_n{}", k), proc_macro2::Span::call_site());
+                                                            let ii = syn::Ident::new(&format!("vx_i{}", k), proc_macro2::Span::call_site());
+                                                            let mm = syn::Ident::new(&format!("vx_m{}", k), proc_macro2::Span::call_site());
+                                                            rep = Some(vec![
+                                                                syn::parse_quote!(let mut #mm: #xty = IndexMap::new();),
+                                                                syn::parse_quote!(let #nn = #a.len();),
+                                                                syn::Stmt::Expr(syn::parse_quote!(for #ii in 0..#nn {
+                                                                    let #ip = #ii;
+                                                                    let #pp = &#a[#ii];
+                                                                    #mm.insert(#kk, #vv);
+                                                                }), None),
+                                                                syn::parse_quote!(let #xpat: #xty = #mm;),
+                                                            ]);
+                                                            self.ctx.used("R63");
+                                                        }
+                                                    }
+                                                }
+                                            }
+                                        }
+                                    }
+                                }
+                            }
+                        }
+                    }
+                }
+                match rep { Some(v) => out.extend(v), None => out.push(st) }
+            }
+            b.stmts = out;
         }
         if self.ctx.on("R57") {
             // R57: statement `V.retain(|P| BODY);` on a vector listed in opts.retain_vecs (a `&mut Vec` parameter) -> position loop: the closure runs
